@@ -4,6 +4,7 @@ from __future__ import annotations
 
 import ast as pyast
 import copy
+import os
 
 import z3
 
@@ -145,6 +146,9 @@ def summarise(interp, b: CompB, body, env, path, node, src_cell):
         return (outcome, exc, p.journal.entries, env_c)
 
     results = explore(parent, run)
+    if os.environ.get('PYVC_DEBUG_LOOP'):
+        print(f'   [loop line {getattr(node, "lineno", "?")}] base={str(b.base)[:50]} paths={len(results)} '
+              f'outcomes={[(r[1][0], [str(c)[:50] for c in r[0].conds[n_c0:]]) for r in results]}')
     if not results:
         # body infeasible for every index: the loop is a no-op
         return
